@@ -77,6 +77,20 @@ class SymDict:
         return None
 
     def __contains__(self, key):
+        key = norm(key)
+        if isinstance(key, SStr) and not key.has_atom():
+            # membership only: one disjunction over the same-length concrete keys (no need to know which one)
+            cands = [k for k in self.conc if isinstance(k, str) and len(k) == len(key.cs)]
+            if cands:
+                if len(key.cs) == 1:
+                    if core.char_in(key.cs[0], frozenset(ord(k) for k in cands if ord(k) < 256)):
+                        return True
+                elif core.EX.branch(z3.Or(*[key.eq_expr(k) for k in cands])):
+                    return True
+            for ent in self.sym:
+                if key_eq(ent[0], key):
+                    return True
+            return False
         return self._find(key) is not None
 
     def get(self, key, default=None):
